@@ -1064,7 +1064,23 @@ func (e *c33env) tornReaders() {
 					x, y, op, ok := c32cmp(ft)
 					return ok && op == token.LSS && exprStr(x) == "pos" && strings.HasPrefix(exprStr(y), "len(")
 				}) {
-					okT = true
+					// ... and under nothing else about pos: a torn FIRST batch (pos == 0)
+					// must be cut off too, the next append reuses the file with O_APPEND
+					extra := ""
+					for _, ft := range g.FactsAt(tl) {
+						x, y, op, ok := c32cmp(ft)
+						if ok && op == token.LSS && exprStr(x) == "pos" && strings.HasPrefix(exprStr(y), "len(") {
+							continue
+						}
+						if containsNode(ft.Cond, false, func(z ast.Node) bool { id, isID := z.(*ast.Ident); return isID && id.Name == "pos" }) {
+							extra = nosp(exprStr(ft.Cond))
+						}
+					}
+					if extra == "" {
+						okT = true
+					} else {
+						c.Fail(rule, f.Key+"#torn-tail-truncated-unconditionally", tn.Pos(), m, "the torn tail is truncated only under `"+extra+"`: a segment whose very first batch is torn keeps its garbage bytes, the next acknowledged produce is appended behind them (indexed at position 0) and is unreadable")
+					}
 				}
 			}
 			c.Check(okT, rule, f.Key+"#torn-tail-truncated", f.Pos(), m, "Truncate(pos) when pos < len(raw)", "the torn tail of a segment is not cut off at the end of the last valid batch: the next append lands behind garbage and is unreadable after the following restart")
